@@ -117,12 +117,10 @@ theorem clearD_cleanupD (isDir : Name → Bool) (max : Option Nat) (pid : Bytes)
     cases hc : ownFile isDir pid f.1 with
     | true => simp
     | false =>
-      by_cases hmem : f.1 ∈ doomed (isOwn pid) (sortKey (pfx pid)) m (names fs)
-      · have hown := (doomed_subset (isOwn pid) (sortKey (pfx pid)) hmem).2
-        unfold ownFile at hc
+      by_cases hmem : f.1 ∈ doomed (ownFile isDir pid) (sortKey (pfx pid)) m (names fs)
+      · have hown := (doomed_subset (ownFile isDir pid) (sortKey (pfx pid)) hmem).2
         rw [hown] at hc
         simp at hc
-        simp [hc]
       · simp [hmem]
 
 /-- a save by pipeline `pid` changes nothing but own-named REGULAR files of `pid` — whether it succeeds, fails at
@@ -151,8 +149,10 @@ theorem cleanupD_noDirs (max : Option Nat) (pid : Bytes) (fs : FS) :
   cases max with
   | none => rfl
   | some m =>
+    have h : ownFile (fun _ => false) pid = isOwn pid := by
+      funext n; unfold ownFile; simp
     unfold cleanupD cleanup cleanupWith
-    simp
+    rw [h]
 
 theorem clearD_noDirs (pid : Bytes) (fs : FS) : clearD (fun _ => false) pid fs = clear pid fs := by
   unfold clearD clear clearWith ownFile
@@ -294,7 +294,7 @@ theorem recover_ok_of_noCrash (env : Env) (cfg : Config) (pid : Bytes) (fs : FS)
 theorem recover_cases (env : Env) (cfg : Config) (pid : Bytes) (fs : FS) :
     (∃ lg, recover env cfg pid fs = .ok lg) ∨
     (cfg.autoRecover = true ∧ env.dirListable = false ∧ recover env cfg pid fs = .error .readDir) ∨
-    (∃ name bytes e, cfg.autoRecover = true ∧ env.dirListable = true ∧ latest true pid fs = some name ∧
+    (∃ name bytes e, cfg.autoRecover = true ∧ env.dirListable = true ∧ latestD env.isDir pid fs = some name ∧
       env.isDir name = false ∧ read fs name = some bytes ∧
       load env.H env.dec bytes = .error e ∧ kills e = true ∧ recover env cfg pid fs = .error (.died e)) := by
   cases hr : cfg.autoRecover with
@@ -303,7 +303,7 @@ theorem recover_cases (env : Env) (cfg : Config) (pid : Bytes) (fs : FS) :
     cases hli : env.dirListable with
     | false => right; left; exact ⟨rfl, rfl, by simp [recover, hr, hli]⟩
     | true =>
-    cases hl : latest true pid fs with
+    cases hl : latestD env.isDir pid fs with
     | none => left; exact ⟨.nothing, by simp [recover, hr, hli, hl]⟩
     | some name =>
       cases hd : env.isDir name with
@@ -329,6 +329,24 @@ theorem latest_single_own (pid : Bytes) (ts : Nat) (hts : ts ≤ u64Max) (conten
     unfold isOwn; rw [fileStamp_fileNameOf pid ts hts]; rfl
   unfold latest latestWith names
   simp [hown]
+
+/-- without sub-directories `latestD` is C12's `latest` -/
+theorem latestD_noDirs (isDir : Name → Bool) (h : ∀ n, isDir n = false) (pid : Bytes) (fs : FS) :
+    latestD isDir pid fs = latest true pid fs := by
+  have h' : ownFile isDir pid = isOwn pid := by
+    funext n; unfold ownFile; simp [h]
+  unfold latestD latest
+  rw [h']
+
+/-- the latest own-named regular file is own-named, regular and in the directory -/
+theorem latestD_some (isDir : Name → Bool) (pid : Bytes) (fs : FS) (name : Name)
+    (hl : latestD isDir pid fs = some name) : isDir name = false ∧ isOwn pid name = true ∧ name ∈ names fs := by
+  unfold latestD at hl
+  have h := (latestWith_some _ _ hl).1
+  have h2 := h.2
+  unfold ownFile at h2
+  simp only [Bool.and_eq_true, Bool.not_eq_true'] at h2
+  exact ⟨h2.2, h2.1, h.1⟩
 
 theorem read_single (name : Name) (content : Bytes) : read [(name, content)] name = some content := by
   unfold Checkpoint.read; simp
